@@ -5,14 +5,15 @@ from .common import find_calls, one_call, call_outcomes, TRUTH, flip
 from . import paths as P
 
 EXPLANATION = (
-    "Decides structural necessary conditions of C17 from MIR: (R1) PEERS_PER_DOC_CACHE_SIZE evaluates to 5; (R2) "
-    "register_useful_peer is evaluated by an abstract interpreter over its MIR (storage calls answered by an oracle, "
-    "Store::modify runs the transaction body) for every table size 0..5 and every position of the peer's previous row; "
-    "the recorded removes/inserts are applied to the abstract table and the result must be the bounded most-recently-used "
-    "list: previous row of the peer removed, (fresh clock value, this peer) inserted once under this namespace, the oldest "
-    "row evicted exactly when the list would exceed 5; an unknown document yields an error and no write; (R4) "
-    "get_sync_peers reads this namespace's rows in reverse, every row reaching the result. "
-    "NOT decided: wall-clock monotonicity, tables that already violate the invariant (more than 5 rows, two rows of one peer)."
+    'Decides structural necessary conditions of C17 from MIR: (R1) PEERS_PER_DOC_CACHE_SIZE evaluates to 5; (R2) '
+    'register_useful_peer is evaluated by an abstract interpreter over its MIR (storage calls answered by an oracle, '
+    "Store::modify runs the transaction body) for every table size 0..5 and every position of the peer's previous row; the "
+    'recorded removes/inserts are applied to the abstract table and the result must be the bounded most-recently-used list:'
+    ' previous row of the peer removed, (fresh clock value, this peer) inserted once under this namespace, the oldest row '
+    'evicted exactly when the list would exceed 5; an unknown document yields an error and no write; (R4) get_sync_peers '
+    "reads this namespace's rows in reverse, every row reaching the result. (R5) the API handler doc_get_sync_peers "
+    'evaluated: it returns the list the store actor produced for the requested document. NOT decided: wall-clock '
+    'monotonicity, tables that already violate the invariant (more than 5 rows, two rows of one peer).'
 )
 ASSUMPTIONS = ["redb multimap value order = tuple order (timestamp first)", "SystemTime is monotone enough (not decided)"]
 
@@ -275,8 +276,16 @@ def r3(ctx):
     ctx.floor("C17.R3", 2)
 
 
+def r5(ctx):
+    """the API layer returns the list the store actor produced for the requested document"""
+    from . import apifw
+    apifw.check_forwarder(ctx, "C17.R5", "doc_get_sync_peers", "GetSyncPeersRequest", ["get_sync_peers(req.doc_id)"], "Ok(GetSyncPeersResponse(result-of-get_sync_peers))")
+    ctx.floor("C17.R5", 2)
+
+
 def run(ctx):
     ctx.run_rule("C17.R1", r1)
     ctx.run_rule("C17.R2", r2)
     ctx.run_rule("C17.R3", r3)
     ctx.run_rule("C17.R4", r4)
+    ctx.run_rule("C17.R5", r5)
